@@ -215,35 +215,41 @@ Definition node_interface_list (n : str) : M (list str) :=
   ci <- concatM conn_points_of cs ;;
   ret (d ++ ci).
 
-(* NetworkService.disconnect_interface (network_service.py:352) *)
+(* NetworkService.disconnect_interface (network_service.py:352): only the service-side port is removed (fix 13b815d) *)
 Definition disconnect_interface (i : str) : M unit :=
-  ps <- get_peers i None ;;
+  ps <- get_peers i (Some sServicePort) ;;
   match ps with
   | None | Some [] => ret tt
   | Some [p] => remove_cp_and_links p true
   | Some _ => raise ETopology
   end.
 
-(* the loop of remove_node / remove_facility / remove_component: disconnect every interface that has a
-   ServicePort peer from the service owning that port *)
+(* Topology._disconnect_from_services (topology.py:228, fix edd75a8): every interface of the list AND each of its
+   sub-interfaces that has a ServicePort peer is disconnected from the service owning that port.  The handles (and the
+   child lists of DedicatedPorts, interface.py:84-93) are made before the loop. *)
+Definition children_of_handle (i : str) : M (list str) :=
+  ded <- type_is i sDedicatedPort ;;
+  if ded then child_cps i else ret [].
+Definition disconnect_one (i : str) : M unit :=
+  ps <- get_peers i (Some sServicePort) ;;
+  match ps with
+  | None | Some [] => ret tt
+  | Some [p] =>
+      h <- parent_of_iface p ;;
+      match h with
+      | HNS _ _ => disconnect_interface i
+      | _ => raise EAttribute
+      end
+  | Some _ => raise ETopology
+  end.
 (* The interface list is walked in the iteration order of Python sets, which the snapshot does not determine;
-   the harness records the order the implementation's interface_list had right before the call and the
+   the harness records the order the implementation's (flattened) list had right before the call and the
    model walks ITS list in that order (elements the hint does not mention keep their place at the end). *)
 Definition order_by (hint l : list str) : list str :=
   filter (fun x => mem_str x l) (dedup_keep hint) ++ filter (fun x => negb (mem_str x hint)) l.
 Definition disconnect_loop (hint ifs : list str) : M unit :=
-  for_each (order_by hint ifs) (fun i =>
-    ps <- get_peers i (Some sServicePort) ;;
-    match ps with
-    | None | Some [] => ret tt
-    | Some [p] =>
-        h <- parent_of_iface p ;;
-        match h with
-        | HNS _ _ => disconnect_interface i
-        | _ => raise EAttribute
-        end
-    | Some _ => raise ETopology
-    end).
+  all <- concatM (fun i => ch <- children_of_handle i ;; ret (i :: ch)) ifs ;;
+  for_each (order_by hint all) disconnect_one.
 
 (* ---- element constructors ------------------------------------------------------------------------ *)
 Definition mk (id : str) (k : cls) (t : option str) (name : str) (lab : bool) : node := mkNode id k t (Some name) lab.
@@ -561,21 +567,24 @@ Definition dist (g : graph) (a x : str) : option nat :=
 Definition dist_is (g : graph) (a x : str) (d : nat) : bool :=
   match dist g a x with Some k => Nat.eqb k d | None => false end.
 
-(* NetworkService.unpeer (network_service.py:425): sp[1] and sp[-2] of a shortest path; when several shortest
-   paths give different choices the model says EAmbiguous *)
+(* NetworkService.unpeer (network_service.py:425, fix 13b815d): the shortest path over `connects` edges must be
+   service - port - link - port - service; sp[1] and sp[-2] are removed; when several such paths give different
+   choices the model says EAmbiguous *)
+Definition connects_only (g : graph) : graph :=
+  mkG (gnodes g) (filter (fun e => rel_eqb (erel e) Connects) (gedges g)).
 Definition ns_unpeer (a b : str) : M unit :=
   find1 a ;;; find1 b ;;;
   g <- getg ;;
-  match dist g a b with
-  | None => raise ETopology
-  | Some O => raise EIndex
-  | Some (Datatypes.S d) =>
-      let firsts := filter (fun x => dist_is g b x d) (dedup (all_nbrs g a)) in
-      let lasts := filter (fun y => dist_is g a y d) (dedup (all_nbrs g b)) in
+  let gc := connects_only g in
+  match dist gc a b with
+  | Some 4 =>
+      let firsts := filter (fun x => dist_is gc b x 3) (dedup (all_nbrs gc a)) in
+      let lasts := filter (fun y => dist_is gc a y 3) (dedup (all_nbrs gc b)) in
       match firsts, lasts with
       | [x], [y] => remove_cp_and_links x true ;;; remove_cp_and_links y true
       | _, _ => raise EAmbiguous
       end
+  | _ => raise ETopology
   end.
 
 (* Interface.add_child_interface (interface.py:103); fresh handle: cache = names of the children *)
@@ -596,6 +605,8 @@ Definition iface_remove_child (i : str) (name : str) : M unit :=
   guard ded EAssert ;;;
   ch <- child_cps i ;;
   c <- find_by_name_lazy ch name ;;
+  (* disconnect the sub-interface from a service it is connected to (fix edd75a8) *)
+  disconnect_one c ;;;
   remove_cp_and_links c false.
 
 (* ---- rename / set_property / unset_property (model_element.py:69-93 and the set_property of each class) ---- *)
